@@ -15,7 +15,9 @@ KINDS = ["IMPLICIT", "POSITION_ONLY", "POSITION_OR_NAME", "POSITIONAL_VARARG", "
 
 
 def ref_argkind(kind: str, pos_only: bool, is_self: bool, is_cls: bool) -> str:
-    if is_self or is_cls:
+    # mypy marks arguments[0] of every non-static method as the receiver, also when it is variadic (`def call(*args, timeout=3)`): the
+    # receiver is then one of the values of *args, the parameter itself stays part of the signature
+    if (is_self or is_cls) and kind != "ARG_STAR":
         return "IMPLICIT"
     return {"ARG_POS": "POSITION_ONLY" if pos_only else "POSITION_OR_NAME",
             "ARG_OPT": "POSITION_ONLY" if pos_only else "POSITION_OR_NAME",
@@ -34,7 +36,7 @@ def param_obj(tag: str, **f) -> Obj:
 def check(ctx: Ctx, col: Collector, tier: str) -> None:
     repo = ctx.repo
     col.spec("C06.ARGKIND-TABLE", "the API JSON records the correct passing kind for each parameter",
-             "specialisation of get_argument_kind over ArgKind x pos_only x is_self x is_cls (feasible combinations)", floor=24)
+             "specialisation of get_argument_kind over ArgKind x pos_only x is_self x is_cls (feasible combinations)", floor=22)
     col.spec("C06.ONE-PER-PARAM", "same length, same order, same Python names (analysis side)",
              "per-iteration path analysis of the argument loop in _parse_parameter_data", floor=4)
     col.spec("C06.EMIT-ONE-PER-PARAM", "same length, same order (generator side): one appended entry per non-receiver parameter",
@@ -60,6 +62,8 @@ def check(ctx: Ctx, col: Collector, tier: str) -> None:
             if po and kind not in ("ARG_POS", "ARG_OPT"):
                 continue  # mypy sets pos_only only for positional arguments written before '/'
             for is_self, is_cls in ((False, False), (True, False), (False, True)):
+                if (is_self or is_cls) and kind == "ARG_STAR2":
+                    continue  # `def m(**kwargs)` in a class cannot be called on an instance: no receiver can be bound
                 arg = Obj("Argument", (("kind", EnumM("ArgKind", kind)), ("pos_only", Const(po)),
                                        ("variable", Obj("Var", (("is_self", Const(is_self)), ("is_cls", Const(is_cls)))))))
                 outs = it.run_function(fi, {pname: arg})
